@@ -156,6 +156,7 @@ static struct pqueue(struct emit_blk *) emit_q;
 static struct pqueue(struct out_blk *) reord_q;
 static struct deque(struct head_blk) order_q;
 static struct pqueue(struct unord_blk *) unord_q;
+static unsigned unord_capacity;
 static bool parse_token;
 static bool parsing_done;
 static struct pqueue(struct detached_bitstream *) scan_q;
@@ -801,7 +802,13 @@ do_reorder(void)
 static bool
 can_scan(void)
 {
+  /* The capacity of unord_q counts the work units and output slots that
+     blocks found by the scanner can hold.  But when such a block is released
+     early (advance(), do_retrieve()) its work unit is free again at once,
+     whereas its entry stays in unord_q until the parser gets to discard it, so
+     room in unord_q has to be checked separately. */
   return ((work_units > SCAN_THRESH || (work_units > 0u && !parse_token))
+          && size(unord_q) < unord_capacity
           && !ultra && !empty(scan_q) && can_attach(*peek(scan_q)));
 }
 
@@ -947,8 +954,9 @@ init(void)
   pqueue_init(scan_q, in_slots);
   pqueue_init(retr_q, work_units);
   pqueue_init(emit_q, work_units);
-  pqueue_init(unord_q, (work_units + out_slots > UNORD_THRESH ?
-                        work_units + out_slots - UNORD_THRESH : 0));
+  unord_capacity = (work_units + out_slots > UNORD_THRESH ?
+                    work_units + out_slots - UNORD_THRESH : 0);
+  pqueue_init(unord_q, unord_capacity);
   deque_init(order_q, work_units + out_slots);
   pqueue_init(reord_q, out_slots);
 
